@@ -879,6 +879,14 @@ def run(rep):
     if mm2:
         broken.append(f"correspondence of the exhaustive mux header sweep: {len(mm2)} disagreeing ranges")
 
+    # 4b. control-frame flood on the real Mux::run (directed family + predicate of gen/c14.py): a peer that finished
+    # the handshake pushes N >> read_frame_count OPEN/CLOSE frames at a stream nobody drains; the frames the
+    # multiplexer takes off the transport must stay <= read_frame_count + the one in hand
+    import c14 as _c14
+    flood = _c14.flood_runner(rep.seed, tier)
+    findings += [{"what": f["what"], "failing_input": f["failing_input"]} for f in flood["failures"]]
+    marks['ctl_flood_done'] = round(time.time() - t0, 1)
+
     # 5. verdict --------------------------------------------------------------------------------
     if findings:
         # one violation per distinct message class, the first input of each as replay
@@ -938,7 +946,8 @@ def run(rep):
         "exhaustive_part": f"65536 headers x {len(configs)} stream-table configurations on the real Mux ({headers_run} runs)",
         "input_distribution": {"decode_fuzz_by_mutation_class": dist, "decode_fuzz_types": len(schema["types"]),
                                "decode_outcomes": fuzz_stats, "decoded_values_reencoded": value_inputs,
-                               "model_cases_by_kind": mkinds, "noise": noise_stats, "corpus_cases": len(corpus)},
+                               "model_cases_by_kind": mkinds, "noise": noise_stats, "corpus_cases": len(corpus),
+                               "mux_control_frame_flood": flood["coverage"]},
         "samples": samples,
         "panic_site_inventory": {"sites": sum(e.get("n", 1) for e in inv["sites"]), "by_class": by_class,
                                  "new": len(new), "changed": len(changed), "stale": len(stale), "note": translator_note,
@@ -966,6 +975,15 @@ def replay(path):
         print("no concrete input in replay file:", json.dumps(d.get("broken"))[:2000])
         print(json.dumps(d.get("first_disagreement"))[:2000])
         return 1
+    if fi.get("runner") == "c14-ctlflood":
+        import c14 as _c14
+        c = dict(fi["case"]); c.setdefault("kind", "raw-ctlflood")
+        common.cargo_build(["mux"], "dev")
+        o = common.run_impl("mux", [c], "dev", shards=1)[0]
+        print("input:", json.dumps(c)[:800])
+        print("implementation (last round: events, frames A, frames B, pulled A, pulled B, status):", json.dumps(o.get("obs", o)[-1])[:600])
+        print("predicate:", json.dumps(_c14.pred_ctlflood(c, o)))
+        return 0
     case = fi.get("case", fi)
     build_bins()
     for prof in ([fi["profile"]] if "profile" in fi else PROFILES):
